@@ -206,6 +206,12 @@ func compare19(c *core.Ctx, m mode19, mk func() op19, mkSplit splitOp, what stri
 		if base.Error != nil || basecfg.Error != nil {
 			panic(fmt.Sprintf("Begin: %v %v", base.Error, basecfg.Error))
 		}
+		// (again on the way out, should an operation panic: a transaction left open would block the reseeding of
+		// every later case of this process)
+		defer func() {
+			base.Rollback()
+			basecfg.Rollback()
+		}()
 	}
 	// (a) session-level DryRun on the very handle that runs it for real afterwards
 	h19.Clock.Reset()
@@ -756,7 +762,7 @@ var EngineC19 = &core.Engine{
 	Level: "exploration",
 	Rule: "the chains and 25 finishers of C01 (raw/named/map/struct/clause/grouped conditions, sub-queries, Select/Joins/Having/Order expressions, creates from struct/slice/map/[]map, upserts, Save, Raw/Exec) on the real columns of a seeded SQLite table, plus Row() finishers, a sub-query handle used by two statements, 11 soft-delete operations, 10 writes of a model that tracks its times as unix numbers (seconds, milli, nano, unsigned), " +
 		"18 operations of a multi-tenant model whose statement depends on the context of the handle (Before* hooks reading Statement.Context, a scope reading it, a gorm.Valuer as condition / assigned / map value, a field type with GormValue, a serializer using its ctx), " +
-		"16 finishers entered with the statement text already there (Raw(text).Create/Find/First/Take/Scan/Pluck/Count/Update/Updates/UpdateColumn/Delete/Row/Rows, or a plugin callback in front of the executor that writes Statement.SQL), and the second use (14 finishers) of the value a dry run (9 finishers) returned; " +
+		"16 finishers entered with the statement text already there (Raw(text) followed by Create of a struct / slice / map, Find, First, Take, Scan, Pluck, Count, Update, Updates, UpdateColumn, Delete with and without inline condition, Row, Rows; or a plugin callback in front of the executor that writes Statement.SQL), and the second use (14 finishers) of the value a dry run (9 finishers) returned; " +
 		"each executed from identically derived handles and logical clocks: Session{DryRun}, a scope returning Session{DryRun}, Session{DryRun} derived mid-chain, Config.DryRun, ToSQL (on the handle, on a chain value carrying part of the chain, on handles that already run dry), and for real behind the recording driver; " +
 		"the handles are the root handle or (drawn per operation) h.WithContext(ctx) / h.Session(&Session{Context: ctx}) with a value in ctx (1/4 of all operations, 7/8 of the context-dependent ones, where the operation may also derive the context handle itself), h.Session(&Session{PrepareStmt: true}) (1/8), a transaction h.Begin() rolled back afterwards (1/8), and their combinations; " +
 		"distinct = (finisher, SQL verb, number of bound values, number of real statements, clause skeleton); non-trivial = the real run sent at least one statement that was compared with the dry run's SQL and bound values",
